@@ -303,13 +303,15 @@ def main(ctx: Ctx) -> int:
                     decl2.append(dict(dd, tmin=int(round(lo * 100)), tmax=int(round(hi * 100))))
                 case = dict(case, declared=decl2, files=case["files"] + [("edit", "windows re-assigned in place: " + str([(d2["tmin"], d2["tmax"]) for d2 in decl2]))])
             modtext = {norm(str(v)): k for k, v in case["mods"].items()}
-            for solver, method, tag in (("cvode", "dense", "dense"), ("cvode", "sparse", "sparse"), ("odeint", "rosenbrock4", "odeint")):
+            # (the rate statements of the gpu device are read for every third network: same guards, same form)
+            for solver, method, tag in (("cvode", "dense", "dense"), ("cvode", "sparse", "sparse"), ("odeint", "rosenbrock4", "odeint")) + \
+                    ((("cvode", "cusparse", "cusparse"),) if ci % 3 == 0 else ()):
                 out = ctx.scratch / "r" / f"{ci}_{tag}_{phase}"
                 tmpl = (["src/naunet_rates.cpp.j2", "src/naunet_fex.cpp.j2", "src/naunet_jac.cpp.j2"] if solver == "cvode" else ["src/naunet_ode.cpp.j2"])
                 try:
-                    render(net, solver, method, out, templates=tmpl)
+                    render(net, solver, method, out, templates=tmpl, device="gpu" if tag == "cusparse" else "cpu")
                     srcs = {p.name: p.read_text() for p in (out / "src").iterdir()}
-                    ratetext = srcs.get("naunet_rates.cpp") or srcs["naunet_ode.cpp"]
+                    ratetext = srcs.get("naunet_rates.cpp") or srcs.get("naunet_rates.cu") or srcs["naunet_ode.cpp"]
                     stmts = creader.read_rates(ratetext)
                 except creader.ReadError as e:
                     ctx.violation(f"{pid}|MalformedRates|{tag}", f"{tag}: {e}", {"files": case["files"], "mods": case["mods"]})
@@ -376,7 +378,7 @@ def main(ctx: Ctx) -> int:
         tr = bytid[t]
         at = max(1, min(rj["at"], len(tr["ev"])))
         e = tr["ev"][at - 1]
-        if tr["be"].startswith("cusparse"):
+        if tr["be"].startswith("cusparse") and e.get("act") == "Batch":
             ctx.violation(f"C06|{clause}|kernel={tr['be'].split()[-1]}", f"batched kernel {tr['be']}: rate coefficients are not evaluated from the system's own "
                           f"parameter record / state slice: {e}: {rj['clauses']}", {"files": meta[t]["files"], "event": e, "clauses": rj["clauses"]})
             continue
